@@ -26,7 +26,8 @@ FLOORS = {
     'quick': {'systems': 100, 'iter_pass_events': 1500, 'setter_events': 5000, 'stopped_by_tolerance': 50,
               'stopped_by_cap': 20, 'countpass_checked': 30, 'twin_histories': 60, 'twin_compares': 1500,
               'channel:args': 20, 'channel:mem': 20, 'channel:xlsx': 10, 'channel:json': 4,
-              'channel:yml': 4, 'channel:pkl': 4, 'via_range': 20, 'twin_writes': 200},
+              'channel:yml': 4, 'channel:pkl': 4, 'via_range': 20, 'twin_writes': 200,
+              'second_call_without_arguments': 10},
     'thorough': {'systems': 2500, 'stopped_by_tolerance': 1200, 'stopped_by_cap': 500,
                  'twin_histories': 1500, 'twin_compares': 40000},
 }
@@ -194,6 +195,28 @@ def one_system(ctx, spec, info, channel, settings, target, plugin):
                 ctx.violation('cap-bound-result-is-not-a-number',
                               f'evaluate({a!r}) = {v!r} after all {its} passes', case)
                 return
+    if channel == 'args':
+        # a later call without arguments must use the workbook's own settings again (100, 0.001)
+        LOG.update(begin=None, passes=[], armed=True)
+        out2 = wb.outcome(comp.evaluate, tgt)
+        LOG['armed'] = False
+        ctx.count('second_call_without_arguments')
+        if LOG['begin'] != (100, 0.001):
+            ctx.violation('per-call-settings-leak-into-the-model',
+                          f'evaluate(..., iterations={its}, tolerance={tol}) followed by evaluate(...) without '
+                          f'arguments: the second call ran with {LOG["begin"]}, the workbook says (100, 0.001)', case)
+            return
+        if out2[0] == 'v' and len(LOG['passes']) < 100:
+            vals = list(out2[1]) if isinstance(target, list) else [out2[1]]
+            q = info['q']
+            for a, v in zip(targets, vals):
+                if a in fixed:
+                    bound = q / (1 - q) * 0.001 * (1 + 1e-5) + 1e-9 * max(1.0, abs(fixed[a]))
+                    if not is_num(v) or abs(v - fixed[a]) > bound:
+                        ctx.violation('result-outside-fixed-point-bound/second-call',
+                                      f'second evaluate({a!r}) = {v!r}; fixed point {fixed[a]!r}, bound {bound:.3g}',
+                                      case)
+                        return
 
 
 def systems(ctx, rng):
